@@ -42,7 +42,16 @@ def find_queue_adt(facts):
         if a["kind"] != "Struct":
             continue
         fs = a["variants"][0]["fields"]
-        dq = [x["name"] for x in fs if re.match(r"^std::sync::Mutex<std::collections::VecDeque<", x["ty"])]
+        def guards_deque(ty):
+            if re.match(r"^std::sync::Mutex<std::collections::VecDeque<", ty):
+                return True
+            # the deque together with some bookkeeping in a private struct behind the mutex (`Mutex<Inner<T>>`, Inner {items: VecDeque<..>, ..})
+            m_ = re.match(r"^std::sync::Mutex<([\w:]+)(<.*>)?>$", ty)
+            b_ = facts.adts.get(m_.group(1)) if m_ else None
+            if b_ is not None and b_["kind"] == "Struct" and str(b_.get("file", "")).startswith("src/"):
+                return len([y for y in b_["variants"][0]["fields"] if y["ty"].startswith("std::collections::VecDeque<")]) == 1
+            return False
+        dq = [x["name"] for x in fs if guards_deque(x["ty"])]
         cv = [x["name"] for x in fs if x["ty"] == "std::sync::Condvar"]
         if len(dq) == 1 and len(cv) == 1:
             out.append((aid, dq[0], cv[0]))
